@@ -4,7 +4,7 @@ Shape H(L): L symbolic operations on a fresh root map, the full oracle after eve
 
 operations (opcode, key components, value kind, targets are solver-chosen finite variables)
   set    `M[key] = value`   key = 1..depth components over the alphabet joined with '/',
-                            value in {handle, empty map, pre-populated map, map with two-layer handles},
+                            value in {handle, empty map, pre-populated map, map with two-layer handles, map with three-layer handles},
                             M = root, or (via=True) a reachable sub-map with the remaining key
   nest   what DirectoryResourcePopulator does on a name conflict: `M.handles.maps.insert(0, {})` on the
          map holding a handle, then assign a fresh handle to the same path (the old one is shadowed)
@@ -112,7 +112,17 @@ def make_value(sp, kind, cx):
     n.kids['a'] = h2
     n.kids['b'] = h0
     n.shadow.add('a')
-    return r, n, 'layered map{a: %r over %r, b: %r (lower layer)}' % (h2, h1, h0)
+    if kind == 3:
+        return r, n, 'layered map{a: %r over %r, b: %r (lower layer)}' % (h2, h1, h0)
+    # kind 4: three layers (the third population of the same files): {a: h3} over {a: h2, b: h4} over {a: h1, b: h0}
+    h3, h4 = cx.handle(), cx.handle()
+    r['b'] = h4
+    r.handles.maps.insert(0, {})
+    r['a'] = h3
+    n.kids['a'] = h3
+    n.kids['b'] = h4
+    n.shadow.add('b')
+    return r, n, 'three-layer map{a: %r over %r over %r, b: %r (middle layer) over %r}' % (h3, h2, h1, h4, h0)
 
 
 def model_set(root, comps, mval):
@@ -353,7 +363,7 @@ def stored_in(holder, obj):
             or any(x is obj for layer in holder.handles.maps for x in layer.values()))
 
 
-def h_tree(sp, L=2, alphabet=('a', 'b', ''), depth=3, values=(0, 1, 2, 3), ops=('set', 'clear', 'nest'),
+def h_tree(sp, L=2, alphabet=('a', 'b', ''), depth=3, values=(0, 1, 2, 3, 4), ops=('set', 'clear', 'nest'),
            via=False, clauses=ALL_CLAUSES, reinsert=False, same=True, flavours=('plain',), alias=False):
     assert not (alias and reinsert)
     alphabet = tuple(alphabet)
@@ -492,6 +502,8 @@ def h_tree(sp, L=2, alphabet=('a', 'b', ''), depth=3, values=(0, 1, 2, 3), ops=(
                         pool.append(dict(mv=mv, holder=holder_node, name=name, via='displaced'))
                 if kind == 3:
                     sp.cover('layered-value')
+                if kind == 4:
+                    sp.cover('three-layer-value')
             elif op == 'nest':
                 hp = model_paths(root, kinds=(TokHandle,))
                 if not hp:
@@ -579,7 +591,7 @@ def h_tree(sp, L=2, alphabet=('a', 'b', ''), depth=3, values=(0, 1, 2, 3), ops=(
 _COVERS = ['handle-read', 'deep-handle-read', 'implicit-map', 'intermediate-over-handle', 'map-over-handle',
            'handle-over-map', 'subtree-replaced', 'layered-value', 'nest', 'clear-nonempty', 'clear-submap',
            'set-via-submap', 'clear-with-shadowed-handle', 'reinsert', 'reinsert-same-map-other-name', 'reassign-same-object',
-           'map-over-layered-handle']
+           'map-over-layered-handle', 'three-layer-value']
 
 _REQ = ['handle-read', 'deep-handle-read', 'map-over-handle', 'handle-over-map', 'layered-value',
         'reassign-same-handle', 'reassign-same-map', 'reassign-same-object-nested']
@@ -590,7 +602,7 @@ HARNESSES = {
                  required=_REQ + ['clear-nonempty', 'implicit-map', 'nest', 'clear-with-shadowed-handle']),
     # the same function on a small universe with one clause family switched on, explored in-process before
     # the pool starts: each family reports its own counterexample even when another family fails too
-    'focus': dict(fn=h_tree, nontrivial=_COVERS, required=['layered-value', 'handle-over-map', 'map-over-handle', 'reassign-same-handle',
+    'focus': dict(fn=h_tree, nontrivial=_COVERS, required=['layered-value', 'three-layer-value', 'handle-over-map', 'map-over-handle', 'reassign-same-handle',
                             'reassign-same-map'],
                   split=False),
     # 'tree' with via=True (assignment through a reachable sub-map); only the vacuity requirement differs
@@ -599,7 +611,7 @@ HARNESSES = {
                                  'clear-with-shadowed-handle']),
     # 'focus' for the clear clause family: a map holding a shadowed same-named handle must get cleared
     'focus-clear': dict(fn=h_tree, nontrivial=_COVERS, split=False,
-                        required=['layered-value', 'clear-nonempty', 'clear-with-shadowed-handle']),
+                        required=['layered-value', 'three-layer-value', 'clear-nonempty', 'clear-with-shadowed-handle']),
 }
 
 _REINS_REQ = ['handle-read', 'deep-handle-read', 'map-over-handle', 'handle-over-map', 'implicit-map', 'reinsert',
@@ -661,7 +673,7 @@ RULE = ('one evaluation = one feasible path of the decision tree (distinct opera
         'used a layered map, nested a handle, cleared a non-empty map or read a handle at depth >= 2')
 BOUNDS = {
     'quick': "focus: names a,b, keys of 1-2 components, 2 ops; tree: names a,b,'' (empty component), keys of 1-3 "
-             "components, values {handle, empty map, map{a: handle, b: map}, map with two-layer handles}, "
+             "components, values {handle, empty map, map{a: handle, b: map}, map with two-layer handles, map with three-layer handles}, "
              "ops {set, nest, clear of root or any reachable sub-map}, all histories of 2 ops; re-insertion: names a,b, "
              "keys of 1-2 components, values {handle, empty map, pre-populated map, any displaced object}, "
              "ops {set, clear}, all histories of 3 ops; instance flavours falsy / empty / all-equal for every handle and "
